@@ -914,6 +914,21 @@ def x5_x7(ctx):
                     r7.undecided('%s:skip-list-admits-unlocated-nodes' % CRATE, pp.where(sk['push']['l']), 'how SkipNodes::push filters Locate-less nodes is not recognised')
             elif not by_identity and not structural:
                 r7.undecided('%s:skip-list-membership' % CRATE, pp.where(sk['contains']['l']), 'how SkipNodes::contains identifies a node is not recognised')
+    # every branch of a conditional chain is either the selected one or put on the skip list: the loop over the `elsif branches visits
+    # them all — a `break` / `return` inside it ("the chain is decided") leaves the later bodies unregistered, so they are emitted and
+    # their `define / `undef take effect although an earlier branch was selected
+    for a_ in pp.arms:
+        if a_.event != 'Enter' or a_.kind not in ('IfdefDirective', 'IfndefDirective'):
+            continue
+        for lp_ in [n for n in sx.walk(a_.body) if n.get('k') == 'for']:
+            if not any(z.get('k') == 'mcall' and z['m'] == 'push' and sx.is_path(z['recv'], 'skip_nodes') for z in sx.walk(lp_['body'])):
+                continue
+            r7.inst('chain-loop:%s' % a_.key)
+            early_ = [z for z in sx.walk_skip(lp_['body'], lambda q: q.get('k') in ('closure', 'for', 'while', 'loop')) if z.get('k') in ('break', 'return')]
+            if early_:
+                r7.fail('%s:%s:chain-loop-left-early' % (CRATE, a_.key), pp.where(early_[0].get('l') or a_.line),
+                        '%s: the loop over the `elsif branches is left early (`%s`): the bodies of the later branches are never put on the skip list, so they are emitted together '
+                        'with the selected branch and directives in them take effect' % (a_.key, early_[0].get('k')))
     return [r5, r6, r7]
 
 
